@@ -325,8 +325,22 @@ func c20Mautil(c *Ctx) {
 		c.Unk("C20.X4-helper-predicates", "mautil.FindHTTPAddrs", token.NoPos, "not found")
 	}
 	// FilterPublic
-	if f := c.Func(pkg, "FilterPublic"); f != nil && len(f.SSA.AnonFuncs) == 1 {
-		pred := f.SSA.AnonFuncs[0]
+	// (the predicate: the function literal, or the named function, handed to FilterAddrs)
+	var fpPred *ssa.Function
+	if f := c.Func(pkg, "FilterPublic"); f != nil {
+		for _, cs := range c.Calls(f.SSA, Call("go-multiaddr.FilterAddrs")) {
+			if len(cs.X.Args) == 2 {
+				if es := variadicElems(c, cs.X.Args[1]); len(es) == 1 && es[0].V != nil {
+					fpPred = funcValueTarget(es[0].V)
+				}
+			}
+		}
+		if fpPred == nil && len(f.SSA.AnonFuncs) == 1 {
+			fpPred = f.SSA.AnonFuncs[0]
+		}
+	}
+	if f := c.Func(pkg, "FilterPublic"); f != nil && fpPred != nil {
+		pred := fpPred
 		okIP, okDNS := false, false
 		for _, b := range pred.Blocks {
 			ret, ok := b.Instrs[len(b.Instrs)-1].(*ssa.Return)
